@@ -20,7 +20,7 @@ import (
 // real code every run and reports it under a stable key (known_findings.json). The same worlds
 // are the `Neg` theorems of LinVerif/Props/C12.lean.
 var witnesses = []func(c *core.Ctx){witnessArrivalOrder, witnessMissingField, witnessLastField, witnessTwoFunctions, witnessReceiveOnly, witnessArrivalOrderL2, witnessMissingFieldL2,
-	witnessErrorBeforeComplete, fixedNotFoundLast, fixedLimitSpread, fixedEmptyLeafCounts, fixedCloseKeys, fixedHaving, fixedManyBrokers, fixedIdleLeaf}
+	witnessErrorBeforeComplete, fixedNotFoundLast, fixedLimitSpread, fixedEmptyLeafCounts, fixedCloseKeys, fixedHaving, fixedManyBrokers, fixedIdleLeaf, fixedTwoAggGaps, fixedWhereDisjointValues, witnessNotComposite}
 
 func twoSeriesWorld(types ...field.Type) *World {
 	w := &World{TagKeys: []string{"host"}}
@@ -300,4 +300,37 @@ func witnessMissingFieldL2(c *core.Ctx) {
 		c.Fail("leaf-without-one-selected-field-loses-its-other-fields",
 			fmt.Sprintf("[real storage nodes] one node: %q; series a on a node that never saw f2: %q", single.res.rowsLine(), split.res.rowsLine()))
 	}
+}
+
+// fixed case: two aggregate types of ONE field over partial results with gaps. Series a reports in
+// slots 0,2,4 (1,3,5), series b in slots 1,3,5 (2,4,6); `select max(f1), min(f1)`. On one node the
+// merged series is dense; on two nodes each partial result has a gap before/between its values and
+// carries two primitive series (min, max) over the wire. Direct, through one intermediate, and with
+// group by host through two intermediates: the answer is the single node's.
+func fixedTwoAggGaps(c *core.Ctx) {
+	w := twoSeriesWorld(field.SumField)
+	for k := 0; k < 3; k++ {
+		w.Points = append(w.Points, Point{0, 0, 2 * k, int64(8 * (2*k + 1))}, Point{1, 0, 2*k + 1, int64(8 * (2*k + 2))})
+	}
+	for gi, gb := range [][]int{nil, {0}} {
+		q := &QueryDef{Selects: []SelectDef{{"f1", function.Max}, {"f1", function.Min}}, GroupBy: gb, NumSlots: 6, Limit: 100, ftypes: ftypesOf(w)}
+		ref := runLayout(c, w, q, reference(w), true, 40*gi)
+		layouts := []*Layout{
+			{Leaves: twoLeaves([]int{0}, []int{0}), LeafPerm: [][]int{{0, 1}}},
+			{Leaves: twoLeaves([]int{0}, []int{0}), LeafPerm: [][]int{{1, 0}}},
+		}
+		if gb != nil {
+			layouts = append(layouts,
+				&Layout{Leaves: twoLeaves([]int{0}, []int{0}), Receivers: 1, LeafPerm: [][]int{{0, 1}}, RootPerm: []int{0}},
+				&Layout{Leaves: twoLeaves([]int{0}, []int{0}), Receivers: 2, LeafPerm: [][]int{{0, 1}, {1, 0}}, RootPerm: []int{1, 0}})
+		}
+		for li, l := range layouts {
+			got := runLayout(c, w, q, l, true, 40*gi+10*(li+1))
+			if got.res.Err != ref.res.Err || got.res.rowsLine() != ref.res.rowsLine() {
+				c.Fail("layout-changes-answer", fmt.Sprintf("max(f1), min(f1), alternating reporters a (slots 0,2,4) / b (slots 1,3,5), group by %v: single node %q (%s) / layout {%s} %q (%s)",
+					gb, ref.res.rowsLine(), ref.res.Err, describeLayout(l), got.res.rowsLine(), got.res.Err))
+			}
+		}
+	}
+	c.NonTrivial()
 }
